@@ -296,6 +296,32 @@ fn aliased_method(ctx: &Ctx, st: &mut CStats) {
     }
 }
 
+/// long sketches (a counter narrower than usize, or a count taken through a float too early, shows from 2^16 / 2^24 on):
+/// lengths 65535, 65536, 65537 and 2^24+3, equal counts 0, 1, a third, all but one, all
+fn check_long<T: Copy + PartialEq + Debug + Sync + Send + RefUnwindSafe>(ctx: &Ctx, tname: &str, x: T, y: T, z: T, fns: &[Counting<T>], st: &mut CStats) {
+    for &len in &[65_535usize, 65_536, 65_537, (1 << 24) + 3] {
+        let a: Vec<T> = (0..len).map(|i| if i % 2 == 0 { x } else { y }).collect();
+        for &c in &[0usize, 1, len / 3, len - 1, len] {
+            // b agrees with a on the first c positions
+            let b: Vec<T> = (0..len).map(|i| if i < c { a[i] } else { z }).collect();
+            for est in fns {
+                let want = (est.expect)(c, len);
+                let got = (est.f)(&a, &b);
+                let rev = (est.f)(&b, &a);
+                st.pairs += 2;
+                if got != Res::Val(want) || rev != got {
+                    ctx.violation(
+                        &format!("counting-long:{}:{}", est.name, tname),
+                        &format!("{}<{}> on sketches of length {} with {} equal positions returns {:?} / {:?} (arguments swapped), expected {}", est.name, tname, len, c, got, rev, want),
+                        json!({"kind": "counting-long", "fn": est.name, "type": tname, "len": len, "equal": c}),
+                    );
+                    return;
+                }
+            }
+        }
+    }
+}
+
 /// the estimator methods of the sketcher structs, against the sketch they hold
 fn check_methods(ctx: &Ctx, st: &mut CStats) {
     for m in 1..=5usize {
@@ -575,6 +601,10 @@ pub fn run(ctx: &Ctx) -> i32 {
     aliased_float::<f32>(ctx, "f32", &fa32[..3], exp_f32, &mut st);
     aliased_float::<f64>(ctx, "f64", &fa64[..3], exp_f64, &mut st);
     aliased_method(ctx, &mut st);
+    check_long::<u16>(ctx, "u16", 3, 7, 9, &generic_fns::<u16>(), &mut st);
+    check_long::<u64>(ctx, "u64", 3, 7, 9, &generic_fns::<u64>(), &mut st);
+    check_long::<f32>(ctx, "f32", 0.25, 1.5, 2.5, &float_fns::<f32>(exp_f32), &mut st);
+    check_long::<f64>(ctx, "f64", 0.25, 1.5, 2.5, &float_fns::<f64>(exp_f64), &mut st);
     let mut ms = MStats::default();
     mle_register_pairs(ctx, &mut ms);
     mle_real_sketches(ctx, &mut ms);
@@ -609,7 +639,7 @@ pub fn run(ctx: &Ctx) -> i32 {
         "exhaustive": true,
         "evaluations": st.pairs + st.mismatch_pairs + ms.calls,
         "distinct_nontrivial": st.distinct_values.len() + ms.distinct.len(),
-        "rule": "counting: every ordered pair of sketches of length 1..5 over a 3-letter alphabet (4 letters for floats: two of them one ulp apart), for each of the 6 free functions and 2 methods and each element type (u16,u32,u64,usize,f32,f64), oracle count/len computed independently, symmetry, 1 on identical, plus all length pairs la!=lb<=5, plus the slice-taking functions on every pair of sub-slices (i..j, k..l) of one buffer of length 4 (aliased arguments, equal or different lengths) and the SuperMinHash method against sub-slices of its own sketch; MLE: every ordered pair of register vectors over {100,101,102,110}^m and {0,1,log_b 1e3,log_b 1e6}^m (m<=3 quick, 4 thorough) for b in {1.001,1.2,2} and all ordered pairs of real sketches of a 15-set family (nested, disjoint, identical, 30 vs 20000, singletons, empty); distinct = distinct returned values",
+        "rule": "counting: every ordered pair of sketches of length 1..5 over a 3-letter alphabet (4 letters for floats: two of them one ulp apart), for each of the 6 free functions and 2 methods and each element type (u16,u32,u64,usize,f32,f64), oracle count/len computed independently, symmetry, 1 on identical, plus all length pairs la!=lb<=5, plus the slice-taking functions on every pair of sub-slices (i..j, k..l) of one buffer of length 4 (aliased arguments, equal or different lengths) and the SuperMinHash method against sub-slices of its own sketch, plus sketches of length 65535, 65536, 65537 and 2^24+3 with 0, 1, a third, all but one and all positions equal; MLE: every ordered pair of register vectors over {100,101,102,110}^m and {0,1,log_b 1e3,log_b 1e6}^m (m<=3 quick, 4 thorough) for b in {1.001,1.2,2} and all ordered pairs of real sketches of a 15-set family (nested, disjoint, identical, 30 vs 20000, singletons, empty); distinct = distinct returned values",
         "counting_pairs": st.pairs,
         "length_mismatch_pairs": st.mismatch_pairs,
         "mle_calls": ms.calls,
